@@ -2,8 +2,10 @@
   C22 — column letters ↔ column numbers.
   Model of base/src/expressions/utils/mod.rs: column_to_number, number_to_column,
   is_valid_column_number, is_valid_column.  Strings are `List Char`; numbers are `Nat`/`Int`
-  (the Rust `i32` accumulator of column_to_number is modelled without wrap-around: the harness
-  feeds column strings of at most 6 letters to it, 26^6 < 2^31; see notes/C22.md).
+  (column_to_number, after fix F22c, returns Err as soon as the accumulated value exceeds LAST_COLUMN;
+  the accumulated value never decreases, so this is the same function as "accumulate in unbounded
+  naturals, then test the range", which is what is written here; the pinned tree accumulated in a
+  wrapping/overflow-checked i32 and panicked or wrapped on identifiers of 7+ letters).
 -/
 namespace IronCalc.Codec
 
